@@ -3,7 +3,7 @@
    destructor wrapper; <PREFIX>SHROUD_memory_destructor).  The temporary-buffer and release-code parts are the table
    theorems of dyn/C06_tables.v; the bounds of the string helpers are C10's theorems. *)
 From Coq Require Import List NArith Bool Arith.
-From Shroud Require Import Model.Capsule Proof.Capsule.
+From Shroud Require Import Model.Capsule Proof.Capsule Model.PyHandles Proof.PyHandles.
 Import ListNotations.
 
 (* every call sequence, of any length, in which the caller does not copy handles, does not use a handle after releasing
@@ -46,6 +46,31 @@ Print Assumptions C06_copied_handle_double_release_refuted.
 Theorem C06_copied_handle_use_after_release_refuted : snd (crun init [New 1; Copy 0; Release 0; Method 1]) = UseAfterFree.
 Proof. exact copied_handle_use_after_release_refuted. Qed.
 Print Assumptions C06_copied_handle_use_after_release_refuted.
+
+(* ---- the reference-counting layer of a Python extension (Model/PyHandles.v): variables refer to wrapped objects, copying a
+   reference is aliasing, the release function runs when the LAST reference is dropped.  For EVERY sequence of Python-level
+   operations (ill-formed ones included: they do nothing) the capsule operations performed are an admissible history ... ---- *)
+Theorem C06_python_reference_counting_is_admissible : forall ops,
+  valid init (compile py_init ops) /\ snd (crun init (compile py_init ops)) = Done /\ Inv (fst (crun init (compile py_init ops))).
+Proof.
+  intros ops. destruct (python_history_admissible ops py_init init inv_init j_init) as (H1 & H2 & H3 & _). auto.
+Qed.
+Print Assumptions C06_python_reference_counting_is_admissible.
+
+(* ... and once no variable refers to anything, every caller-owned object has been released exactly once.
+   (The generated extension does NOT implement this layer correctly on the unchanged tree: known finding
+   python-class-instances-never-released.) *)
+Theorem C06_python_all_references_dropped_no_leak : forall ops, Forall (fun x => x = None) (vars (py_run py_init ops)) ->
+  let s := fst (crun init (compile py_init ops)) in
+  forall a ob, nth_error (oheap s) a = Some ob -> o_kind ob <> 0 -> o_live ob = false /\ o_frees ob = 1.
+Proof. exact python_no_leak. Qed.
+Print Assumptions C06_python_all_references_dropped_no_leak.
+
+Example C06_python_example :
+  compile py_init [PLib; PNew 1; PAlias 0; PDrop 0; PMethod 1; PBorrow 0; PDrop 1; PDrop 2] =
+    [LibObject; New 1; Method 0; Borrow 0; Release 0; Release 1] /\
+  Forall (fun x => x = None) (vars (py_run py_init [PLib; PNew 1; PAlias 0; PDrop 0; PMethod 1; PBorrow 0; PDrop 1; PDrop 2])).
+Proof. split; [reflexivity | cbn; repeat constructor]. Qed.
 
 Example C06_admissible_history_exists :
   valid init [LibObject; New 1; New 2; Borrow 0; Method 0; Method 2; Destroy 0; Release 0; Release 0; Release 1; Release 2; Destroy 1] /\
